@@ -1408,6 +1408,18 @@ def bt_find(m, sk):
 
 
 def bt_insert(ex, m, k, v):
+    kk = ex.deref(k) if isinstance(k, Ref) else k
+    if isinstance(kk, (StringV, StrRef)) and not is_conc_chars(kk.chars):
+        # symbolic string key: decided by equality with the existing keys (fork); the position of a new key in the
+        # order is unknown - the map may afterwards only be used for membership / length (iteration is refused)
+        for e in m.entries:
+            ek = e[1]
+            if isinstance(ek, (StringV, StrRef)) and ex.branch(str_eq(ex, ek.chars, kk.chars), 'btree-symbolic-key-eq'):
+                old = e[2].v
+                e[2].v = v
+                return old
+        m.entries.append([('sym', len(m.entries)), kk, Cell(v)])
+        return None
     sk = sort_key(ex, k)
     i, found = bt_find(m, sk)
     if found:
